@@ -507,9 +507,13 @@ class GenS(GenF):
                 opts.append(("at", V("pua"), self.ftyped(FLOAT if wrong else INT, env, d - 1, noise)))
             if ty == multi(INT, STR) and "puf" in names:
                 opts.append(("call", V("puf"), [self.ftyped(FLOAT if wrong else INT, env, d - 1, noise)]))
-            if ty == INT and "pum" in names and "ci" in names:
+            if ty == INT and "pum" in names and "ci" in names and r.random() < 0.2:
                 # the parameter types `mut int` and `mut (int|float)` have no common lower bound but `!`: never callable
                 opts.append(("call", V("pum"), [V("ci")]))
+            its = [n for n, t in env if t[0] == "fn" and t[1] == () and t[2][0] == "tup" and len(t[2][1]) == 2 and t[2][1][0] == BOOL and arr(t[2][1][1]) == ty]
+            if its:
+                # `it $]`: collecting a hand-written iterator
+                opts.append(("post", "collect", V(r.choice(its))))
             if ty == arr(INT) and "pug" in names:
                 opts.append(("call", V("pug"), [self.ftyped(FLOAT if wrong else INT, env, d - 1, noise), self.ftyped(STR, env, d - 1, noise)]))
             if ty == INT and "puc" in names and getattr(self, "_ins", 0) == 0:
